@@ -188,6 +188,19 @@ func runC02(c *Ctx) {
 			}
 		}
 	}
+	// a bulk-load group: tens of thousands of changes between one BEGIN and its XID / COMMIT / ROLLBACK are still one
+	// transaction, delivered whole at the commit event (or not at all), whatever memory the replica would like to bound
+	for _, closing := range []string{"txXid", "txRollback", "txCommit"} {
+		if !c.Thorough() && closing == "txCommit" {
+			continue
+		}
+		cfg := baseCfg(r, r.Intn(len(baseCfgs)))
+		o := histOpts{maxCols: 2, maxRows: 1, hugeTx: 16500 + r.Intn(200)}
+		h := genHistorySeq(r, cfg, o, []string{"ddl", closing, "autoRows", "txXid"})
+		h.encode(c)
+		c.R.Count("huge-group/" + closing)
+		checkFullRun(c, "C02", h, "huge group ("+closing+")")
+	}
 	// every event type code the streamer has no branch for, between units and inside transactions: none of them may
 	// commit, deliver, or move a label (XA prepare 38, the MariaDB codes 160.., 0, 255 ...)
 	var unk []int
